@@ -82,7 +82,7 @@ def run_property(prop, tier, seed, args):
         "case_budget": settings.get("case_budget", 60.0 if tier == "quick" else 600.0),
     }
     qt = settings.get("query_timeout_ms", 20000 if tier == "quick" else 120000)
-    budget = float(os.environ.get("VERIF_BUDGET_S", settings.get("budget_s", 150 if tier == "quick" else 1500)))
+    budget = float(os.environ.get("VERIF_BUDGET_S", settings.get("budget_s", 300 if tier == "quick" else 1500)))
     import shutil
     shutil.rmtree(os.path.join(ROOT, "replays", prop), ignore_errors=True)
     cases = list(mod.cases(tier, seed))
@@ -212,6 +212,9 @@ def finish(prop, modname, mod, tier, seed, cases, results, not_run, t0, args, se
           f"not_run={not_run} wall={wall:.1f}s")
     for i in inconclusive[:8]:
         print(f"  inconclusive: {i['case']} {i['cfg']} {i['reasons'][:2]}")
+    if not_run:
+        print(f"  NOTE: wall budget reached, {not_run} of {len(cases)} cases were not run (listed in evidence.coverage.cases_not_run_budget); "
+              f"raise VERIF_BUDGET_S to cover them")
     for fid, k in sorted(kf_seen.items()):
         print(f"KNOWN-FINDING: property={prop} {fid}: {kf_desc.get(fid, {}).get('description', '')} "
               f"[e.g. {k['case'].get('label')} {k['label']}]")
